@@ -7,6 +7,9 @@ import Driver.Registry
 import Driver.Table
 import Driver.Footnote
 import Driver.Url
+import Driver.Ast
+import Driver.Ids
+import Driver.Bufio
 namespace Driver
 
 def handle (line : String) : String :=
@@ -20,6 +23,10 @@ def handle (line : String) : String :=
   | "table" :: rest => handleTable rest
   | "footnote" :: rest => handleFootnote rest
   | "url" :: rest => handleUrl rest
+  | "ast" :: rest => handleAst rest
+  | "walk" :: rest => handleWalk rest
+  | "ids" :: rest => handleIds rest
+  | "bufio" :: rest => handleBufio rest
   | _ => bad
 
 partial def loop (hin hout : IO.FS.Stream) : IO Unit := do
